@@ -6,6 +6,9 @@ RULE = ("one Kani harness per (node kind, ordered pair of non-None operand tags)
 
 
 def check(run, only=None):
+    from .. import e3
+    e3.run_parts(run, ['dispatcher'], only=only, kinds=["If", "And", "Or", "Equals", "NotEquals"])
+    run.notes.append('E3 (MIR symbolic execution): if / and / or reject every non-boolean condition or operand with the type error; == / != between values of different types is false / true (node_* obligations)')
     from . import c05
 
     def lazy_eq(run, arms):
@@ -29,6 +32,10 @@ def check(run, only=None):
 
 
 def replay(run, path):
+    import json as _json
+    if _json.load(open(path)).get("replay", {}).get("engine") == "e3":
+        from ..e3replay import replay_file as _rf
+        return _rf(run, path)
     from ..replay import replay_file
 
     def gen():
